@@ -1039,6 +1039,7 @@ type gateClient struct {
 	listed   chan struct{}
 	release  chan struct{}
 	activity int
+	failN    int // fail the next n uploads
 }
 
 func (g *gateClient) arm(level int) {
@@ -1081,10 +1082,23 @@ func (g *gateClient) LTXFiles(ctx context.Context, level int, seek ltx.TXID, use
 	return itr, err
 }
 
+func (g *gateClient) failWrites(n int) {
+	g.mu.Lock()
+	g.failN = n
+	g.mu.Unlock()
+}
+
 func (g *gateClient) WriteLTXFile(ctx context.Context, level int, minTXID, maxTXID ltx.TXID, r io.Reader) (*ltx.FileInfo, error) {
 	g.mu.Lock()
 	g.activity++
+	fail := g.failN > 0
+	if fail {
+		g.failN--
+	}
 	g.mu.Unlock()
+	if fail {
+		return nil, errors.New("injected upload failure")
+	}
 	return g.ReplicaClient.WriteLTXFile(ctx, level, minTXID, maxTXID, r)
 }
 
@@ -1207,6 +1221,50 @@ func genHistRace(r *hx.Rand) HistCase {
 		drainUpTo(n + 1)
 		ws(1)
 		drainUpTo(h.Levels)
+	}
+	h.Ops = append(h.Ops, HOp{Op: "snapshot"})
+	return h
+}
+
+// genHistLag: the replica lags behind the database. Rounds of: replicated writes; the replica's
+// in-memory position is lost (restart with new objects, or a failed replica sync); transactions
+// DB.Sync'ed locally only; a snapshot taken while lagging (or not); then Replica.Sync, more
+// writes, compactions.
+func genHistLag(r *hx.Rand) HistCase {
+	h := HistCase{PageSize: []int{512, 1024, 4096}[r.Intn(3)], AutoVacuum: 0, Levels: 1 + r.Intn(3)}
+	w := func() { h.Ops = append(h.Ops, HOp{Op: "insert", A: 1 + r.Intn(3), B: 10 + r.Intn(700)}) }
+	rounds := 1 + r.Intn(3)
+	for k := 0; k < rounds; k++ {
+		for i := 0; i < 1+r.Intn(3); i++ {
+			w()
+			h.Ops = append(h.Ops, HOp{Op: "sync"})
+		}
+		switch r.Intn(4) {
+		case 0:
+			h.Ops = append(h.Ops, HOp{Op: "restart", A: 0})
+		case 1:
+			h.Ops = append(h.Ops, HOp{Op: "restart", A: 1})
+		case 2:
+			w()
+			h.Ops = append(h.Ops, HOp{Op: "syncfail"})
+		}
+		for i := 0; i < r.Intn(4); i++ {
+			w()
+			h.Ops = append(h.Ops, HOp{Op: "dbsync"})
+		}
+		if r.Chance(70) {
+			h.Ops = append(h.Ops, HOp{Op: "snapshot", A: 1, B: r.Intn(2)})
+		}
+		if r.Chance(30) {
+			w()
+			h.Ops = append(h.Ops, HOp{Op: "dbsync"})
+		}
+		h.Ops = append(h.Ops, HOp{Op: "sync"})
+		w()
+		h.Ops = append(h.Ops, HOp{Op: "sync"}, HOp{Op: "compact", A: 1, B: 1})
+		if h.Levels >= 2 && r.Bool() {
+			h.Ops = append(h.Ops, HOp{Op: "compact", A: 2, B: 1})
+		}
 	}
 	h.Ops = append(h.Ops, HOp{Op: "snapshot"})
 	return h
@@ -1347,6 +1405,49 @@ func runHist(h HistCase, drv *hx.Driver, root string, n int) (hr histResult) {
 				maxL0 = uint64(f.MinTXID)
 			}
 		}
+		// local L0 files not (yet) uploaded: the replica may lag behind DB.Sync
+		ents, _ := os.ReadDir(db.LTXLevelDir(0))
+		for _, e := range ents {
+			mn, mx, err := ltx.ParseFilename(e.Name())
+			if err != nil || mn != mx {
+				continue
+			}
+			if _, ok := l0[uint64(mn)]; ok {
+				continue
+			}
+			fh, err := os.Open(filepath.Join(db.LTXLevelDir(0), e.Name()))
+			if err != nil {
+				continue
+			}
+			lf, _, err := decodeLogical(fh, tokHash)
+			fh.Close()
+			if err != nil {
+				return "read local L0: " + err.Error()
+			}
+			l0[uint64(mn)] = lf
+			hr.stats["l0-archived-from-local-dir"]++
+			if uint64(mn) > maxL0 {
+				maxL0 = uint64(mn)
+			}
+		}
+		return ""
+	}
+	retentionRan := false
+	// replicaL0Gapless: after a successful replica sync the replica's level 0 is a gapless run of
+	// TXIDs ending at the database position (retention only ever removes a prefix).
+	replicaL0Gapless := func(when string) string {
+		infos, err := listFiles(ctx, client, []int{0})
+		if err != nil {
+			return "list L0: " + err.Error()
+		}
+		for k := 1; k < len(infos); k++ {
+			if infos[k].MinTXID != infos[k-1].MaxTXID+1 {
+				return fmt.Sprintf("level 0 on the replica has a hole %s: %d then %d", when, infos[k-1].MaxTXID, infos[k].MinTXID)
+			}
+		}
+		if pos, err := db.Pos(); err == nil && len(infos) > 0 && infos[len(infos)-1].MaxTXID != pos.TXID {
+			return fmt.Sprintf("level 0 on the replica ends at %d %s, the database position is %d", infos[len(infos)-1].MaxTXID, when, pos.TXID)
+		}
 		return ""
 	}
 	rangeL0 := func(a, b uint64) ([]LF, bool) {
@@ -1378,6 +1479,7 @@ func runHist(h HistCase, drv *hx.Driver, root string, n int) (hr histResult) {
 	}
 	// checkRestores: every TXID restorable now gives the database it always gave, which is the
 	// sequential application of the archived L0 files 1..n.
+	strictAvail := false // set for the final sweep: every TXID must be restorable
 	checkRestores := func(when string, onlyNew bool) string {
 		for t := uint64(1); t <= maxL0; t++ {
 			if _, ok := truth[t]; ok && onlyNew {
@@ -1387,6 +1489,9 @@ func runHist(h HistCase, drv *hx.Driver, root string, n int) (hr histResult) {
 			if err != nil {
 				if _, ok := truth[t]; ok && !errors.Is(err, litestream.ErrTxNotAvailable) && !strings.Contains(err.Error(), "not available") {
 					return fmt.Sprintf("Restore(TXID=%d) %s fails: %v", t, when, err)
+				}
+				if strictAvail && !retentionRan {
+					return fmt.Sprintf("Restore(TXID=%d) %s fails although every transaction was replicated and nothing was pruned: %v", t, when, err)
 				}
 				hr.stats["restore-unavailable"]++
 				continue
@@ -1479,6 +1584,33 @@ func runHist(h HistCase, drv *hx.Driver, root string, n int) (hr histResult) {
 			if e := db.Replica.Sync(ctx); e != nil {
 				hx.Fatal(fmt.Errorf("replica.Sync: %w", e))
 			}
+			if why := archive(); why != "" {
+				hr.violation = why
+				return
+			}
+			if why := replicaL0Gapless(fmt.Sprintf("after op %d (sync)", i)); why != "" {
+				hr.violation = why
+				return
+			}
+		case "dbsync":
+			// the replica lags: the transaction is in the local L0 directory only
+			if e := db.Sync(ctx); e != nil {
+				hx.Fatal(fmt.Errorf("db.Sync: %w", e))
+			}
+			if why := archive(); why != "" {
+				hr.violation = why
+				return
+			}
+		case "syncfail":
+			// a replica sync that fails on its first upload (the in-memory replica position is dropped)
+			if e := db.Sync(ctx); e != nil {
+				hx.Fatal(fmt.Errorf("db.Sync: %w", e))
+			}
+			client.failWrites(1)
+			if e := db.Replica.Sync(ctx); e != nil {
+				hr.stats["replica-sync-error"]++
+			}
+			client.failWrites(0)
 			if why := archive(); why != "" {
 				hr.violation = why
 				return
@@ -1603,17 +1735,21 @@ func runHist(h HistCase, drv *hx.Driver, root string, n int) (hr histResult) {
 				return
 			}
 		case "l0retention":
+			retentionRan = true
 			db.L0Retention = time.Nanosecond
 			if e := db.EnforceL0RetentionByTime(ctx); e != nil {
 				hr.stats["l0retention-error"]++
 			}
 			db.L0Retention = litestream.DefaultL0Retention
 		case "compact", "snapshot":
+			lagging := op.Op == "snapshot" && op.A == 1 // snapshot while the replica lags behind DB.Sync
 			// flush so that everything local is on the replica and archived before it is compacted
 			if e := db.Sync(ctx); e != nil {
 				hx.Fatal(fmt.Errorf("db.Sync: %w", e))
 			}
-			if e := db.Replica.Sync(ctx); e != nil {
+			if lagging {
+				hr.stats["snapshot-while-lagging"]++
+			} else if e := db.Replica.Sync(ctx); e != nil {
 				hx.Fatal(fmt.Errorf("replica.Sync: %w", e))
 			}
 			if why := archive(); why != "" {
@@ -1722,6 +1858,25 @@ func runHist(h HistCase, drv *hx.Driver, root string, n int) (hr histResult) {
 			hr.stats["sql-error"]++
 		}
 	}
+	// final: everything replicated; level 0 gapless; every TXID restorable to its recorded state
+	if e := db.Sync(ctx); e == nil {
+		if e := db.Replica.Sync(ctx); e == nil {
+			if why := archive(); why != "" {
+				hr.violation = why
+				return
+			}
+			if why := replicaL0Gapless("at the end of the history"); why != "" {
+				hr.violation = why
+				return
+			}
+			strictAvail = true
+			if why := checkRestores("at the end of the history", false); why != "" {
+				hr.violation = why
+				return
+			}
+			strictAvail = false
+		}
+	}
 	// final sweep: every file at level >= 1
 	var lv []int
 	for l := 1; l <= h.Levels; l++ {
@@ -1776,7 +1931,7 @@ type replayFile struct {
 func main() {
 	o := hx.ParseFlags("C06")
 	res := hx.NewResult(o, "c06: ltx.Compactor / litestream.Compactor.Compact / DB.Compact+Snapshot+Restore vs Lean compact/compactPick + composition oracle")
-	res.Rule = "codec stream: seeded random chains of 1..7 logical LTX files (page size 512; growing/shrinking commits, in-chain full snapshots, overlapping and non-contiguous ranges, sparse pages around the lock page; plus long backlogs of 1,2,3,63,64,65,66,100,130,300 single-TXID files before one compaction at level 1 and of up to 130 (thorough 300) level-1 files before one compaction at level 2, compacted until ErrNoCompaction, with Restore(TXID=t) for every t) through the real encoder, ltx.Compactor, decoder and litestream.Compactor.Compact (levels 1..3 over a file replica, with and without max-file cache); history stream: seeded real SQLite histories (page sizes 512/1024/4096, auto_vacuum 0/1/2, inserts/updates/deletes/VACUUM/schema changes/checkpoints) with sync, Compact(level) for 1..8-level layouts (DB.Compact or Store.CompactDB), Snapshot (DB.Snapshot and level-9 Store.CompactDB), L0 retention, cache-race schedules (after a restart, Store.CompactDB(N+1) probing level N with its listing held after it was read while Compact(N) runs; then further writes and compactions), restart histories (Close + new DB object or crash-abandoned object, 0-2 idle syncs, then snapshot, with and without a following write+sync), backlog histories (65..130 tiny synced transactions before draining level 1, and as many level-1 files before draining level 2; thorough up to 300), Restore(TXID) of every TXID before and after every compaction. non-trivial = codec case with >=2 files, history with >=1 successful compaction; distinct = canonical JSON of the case"
+	res.Rule = "codec stream: seeded random chains of 1..7 logical LTX files (page size 512; growing/shrinking commits, in-chain full snapshots, overlapping and non-contiguous ranges, sparse pages around the lock page; plus long backlogs of 1,2,3,63,64,65,66,100,130,300 single-TXID files before one compaction at level 1 and of up to 130 (thorough 300) level-1 files before one compaction at level 2, compacted until ErrNoCompaction, with Restore(TXID=t) for every t) through the real encoder, ltx.Compactor, decoder and litestream.Compactor.Compact (levels 1..3 over a file replica, with and without max-file cache); history stream: seeded real SQLite histories (page sizes 512/1024/4096, auto_vacuum 0/1/2, inserts/updates/deletes/VACUUM/schema changes/checkpoints) with sync, Compact(level) for 1..8-level layouts (DB.Compact or Store.CompactDB), Snapshot (DB.Snapshot and level-9 Store.CompactDB), L0 retention, lagging-replica histories (restart or failed replica sync dropping the replica position, DB.Sync without Replica.Sync, snapshot while lagging, then Replica.Sync, writes, compactions; level 0 on the replica must stay gapless and every TXID restorable at the end), cache-race schedules (after a restart, Store.CompactDB(N+1) probing level N with its listing held after it was read while Compact(N) runs; then further writes and compactions), restart histories (Close + new DB object or crash-abandoned object, 0-2 idle syncs, then snapshot, with and without a following write+sync), backlog histories (65..130 tiny synced transactions before draining level 1, and as many level-1 files before draining level 2; thorough up to 300), Restore(TXID) of every TXID before and after every compaction. non-trivial = codec case with >=2 files, history with >=1 successful compaction; distinct = canonical JSON of the case"
 	tmp, err := os.MkdirTemp("", "c06-")
 	if err != nil {
 		hx.Fatal(err)
@@ -1934,6 +2089,16 @@ func main() {
 		}
 	}
 	phase("hist-race")
+	nLag := 10
+	if o.Tier == "thorough" {
+		nLag = 100
+	}
+	for k := 0; k < nLag && histFail < 2; k++ {
+		if !evalHist(genHistLag(rnd.Fork()), 600000+k) {
+			histFail++
+		}
+	}
+	phase("hist-lag")
 	nRestart := 8
 	if o.Tier == "thorough" {
 		nRestart = 80
